@@ -153,6 +153,7 @@ package ast
 //@ ghost var reMatched bool scratch
 //@ ghost var excluded bool scratch
 //@ ghost var varsDone bool scratch
+//@ ghost var itvDone bool scratch
 
 //@ func (*Tasks).Get
 //@   pure allocates
@@ -163,6 +164,7 @@ package ast
 //@   init dupFree := false
 //@   init excluded := true
 //@   init varsDone := false
+//@   init itvDone := false
 //@   site (*Task).DeepCopy#1 requires arg0 == v                              -- the copy is of the task being visited   [C08]
 //@   site slices.Contains#1 requires arg0 == include.Excludes && arg1 == name                                          [C08]
 //@   site slices.Contains#1 ghost excluded := result
@@ -188,6 +190,8 @@ package ast
 //@   ensures unmodified(v)     -- merging writes into the copy only; the included Taskfile's own task (which other parents will copy too) stays as it was   [C08,C09,C11]
 //@   site (*Tasks).Set#1 requires include.Flatten || (task.Task == taskName && task.Namespace == include.Namespace)     [C08]
 //@   site (*Tasks).Set#1 requires include.AdvancedImport ==> varsDone      -- the include's vars reach every copy       [C08,C10]
+//@   site (*Vars).DeepCopy#1 ghost itvDone := true
+//@   site (*Tasks).Set#1 requires include.AdvancedImport ==> itvDone       -- and so do the included file's own vars, flattened or not   [C10]
 
 // The alias block after the loop only touches the default task if it was merged (it may have been excluded).
 //@ func (*Tasks).Merge
@@ -278,3 +282,16 @@ package ast
 //@   nosite (*Tasks).All            -- the tasks are touched by Tasks.Merge only (which copies), never walked over here  [C06,C08]
 //@   nosite (*Tasks).Values                                                                                             [C06,C08]
 //@   nosite (*Tasks).Get                                                                                                [C06,C08]
+
+// ---- C08: a ':'-prefixed reference loses exactly ONE leading ':' per include level
+//@ func taskNameWithNamespace
+//@   site strings.TrimPrefix#1 requires arg0 == taskName && arg1 == ":"                                                 [C08]
+//@   nosite strings.TrimLeft                                                                                            [C08]
+//@   nosite strings.TrimLeftFunc                                                                                        [C08]
+// ---- C09: the order in which Taskfiles of one level are merged is the plain order of their locations (a total
+// order: two different locations never tie)
+//@ func (*TaskfileGraph).Merge$1
+//@   nosite strings.ToLower                                                                                             [C09]
+//@   nosite strings.ToUpper                                                                                             [C09]
+//@   nosite strings.EqualFold                                                                                           [C09]
+//@   nosite strings.Compare                                                                                             [C09]
